@@ -24,6 +24,7 @@ var AssumedLib = []string{
 	"time.Now: symbolic monotone clock; Time.Add/Sub/After/Before/Since/Unix: integer arithmetic on nanoseconds",
 	"cilium/ebpf (*Map).Put/Update/Delete: only read their key/value arguments, no effect on Go state, unconstrained error",
 	"net.IP.Equal(a,b) <=> ip_key(a) == ip_key(b) and net.IP.String() = ip_str(ip_key(a)) with ip_str injective: ip_key is an uninterpreted, extensional function of the address bytes standing for the Equal-equivalence class (4-byte and 16-byte forms of one address may share a key; nothing else is assumed)",
+	"github.com/insomniacslk/dhcp/dhcpv4: With*/Opt*/New*/Get*/Is*/Has* functions and the read-only accessors of a message (RequestedIPAddress, MessageType, Options.Get, ...) allocate new objects and do not write existing memory; results unconstrained",
 	"net.HardwareAddr.String: an (uninterpreted) function of the address bytes; crypto/rand.Read: writes only into its argument's backing array",
 	"zap, fmt.Sprint*, strings, strconv, errors, math, unicode, context, sync/atomic, prometheus: no panic, no effect on modelled state, unconstrained results",
 }
@@ -76,6 +77,21 @@ func isNoEffect(full string, fn *types.Func) bool {
 	if p == "bytes" {
 		sig := fn.Type().(*types.Signature)
 		return sig.Recv() == nil
+	}
+	if p == "github.com/insomniacslk/dhcp/dhcpv4" {
+		// constructors of options / modifiers / replies and read-only accessors of a message:
+		// they allocate new objects and copy their arguments, existing memory is not written
+		n := fn.Name()
+		for _, pre := range []string{"With", "Opt", "New", "Get", "Is", "Has"} {
+			if strings.HasPrefix(n, pre) {
+				return true
+			}
+		}
+		switch n {
+		case "RequestedIPAddress", "MessageType", "ServerIdentifier", "HostName", "Summary", "String", "ToBytes", "ClassIdentifier", "ParameterRequestList", "IPAddressLeaseTime", "FromBytes":
+			return true
+		}
+		return false
 	}
 	if p == "encoding/hex" {
 		return fn.Name() == "EncodeToString" || fn.Name() == "DecodeString" || fn.Name() == "Dump"
